@@ -242,6 +242,11 @@ func GoNamed(name string, f func()) {
 		}
 		f()
 	}()
+	if s.cur != nil && !s.cfg.NoSpawnPoint {
+		// thread creation is a scheduling point: the child may run before the
+		// parent's next step (costs a preemption)
+		yield(&op{kind: "go", ready: ready0})
+	}
 }
 
 func callerSiteN(skip int) string {
@@ -565,7 +570,9 @@ func run(cfg *Config, prefix []int, body func(), trace bool) *Exec {
 }
 
 func (s *sched) touch(ob unsafe.Pointer, tid int) {
-	if ob == nil {
+	if ob == nil || tid == 0 {
+		// the main thread only acts before it starts / after it joined the
+		// workers (fork/join ordered): its accesses never conflict with theirs
 		return
 	}
 	if s.objOwner == nil {
@@ -641,6 +648,7 @@ type Config struct {
 	Sites      bool          // record call sites of parked operations (slower)
 	Race       bool          // vector-clock race detection on vs.Rd/vs.Wr accesses
 	NoWatchdog bool
+	NoSpawnPoint bool // do not make thread creation a scheduling point
 	// SharedOnly: a preemption is only tried before an operation on an object
 	// that more than one thread touches in the parent execution (operations on
 	// thread-private objects commute with everything the other threads do there).
